@@ -182,20 +182,9 @@ theorem cscr_image_wf (t : Tag) (sDT sIT : Nat) (cvD cvI : Nat → Nat) (r c : N
 
 /-! ### decidable forms: well-formed image, representable values -/
 
-/-- `WF` as a Boolean check -/
-def ImageOK (t : Tag) (sDT sIT : Nat) (c : Container) : Bool :=
-  (u64Words t sDT sIT c).all (fun v => decide (v < 256 ^ 8)) && c.scalarDt.all (fun v => decide (v < 256 ^ sDT)) &&
-  c.elements.all (fun a => a.all fun v => decide (v < 256 ^ sDT)) &&
-  c.indices.all (fun a => a.all fun v => decide (v < 256 ^ sIT))
-
 theorem WF_of_ImageOK (t : Tag) (sDT sIT : Nat) (c : Container) (h : ImageOK t sDT sIT c = true) : WF t sDT sIT c := by
   simp only [ImageOK, Bool.and_eq_true, List.all_eq_true, decide_eq_true_eq] at h
   exact ⟨h.1.1.1, h.1.1.2, h.1.2, h.2⟩
-
-/-- every value survives the conversion to the file types and back (`cv` memory → file, `bk` file → memory) -/
-def Representable (cvD cvI bkD bkI : Nat → Nat) (c : Container) : Bool :=
-  c.scalarDt.all (fun v => bkD (cvD v) == v) && c.elements.all (fun a => a.all fun v => bkD (cvD v) == v) &&
-  c.indices.all (fun a => a.all fun v => bkI (cvI v) == v)
 
 theorem representable_spec (cvD cvI bkD bkI : Nat → Nat) (c : Container)
     (h : Representable cvD cvI bkD bkI c = true) :
@@ -203,9 +192,5 @@ theorem representable_spec (cvD cvI bkD bkI : Nat → Nat) (c : Container)
     (∀ a ∈ c.indices, ∀ v ∈ a, bkI (cvI v) = v) := by
   simp only [Representable, Bool.and_eq_true, List.all_eq_true, beq_iff_eq] at h
   exact ⟨h.1.1, h.1.2, h.2⟩
-
-/-- the conversions of `Container::assign` between float/double and u32/u64 as the driver models them -/
-def cvData (wFrom wTo : Nat) (b : Nat) : Nat := encF wTo (decF wFrom b)
-def cvIndex (wTo : Nat) (i : Nat) : Nat := i % 256 ^ wTo
 
 end FeatModel.Ser
